@@ -30,7 +30,7 @@ UMK = "umk"
 
 
 def budget_s(tier):
-    return 400 if tier == "quick" else 1800
+    return 600 if tier == "quick" else 1800
 
 
 def drawings():
